@@ -127,6 +127,41 @@ def check_canonical(ctx, name, psi, vec, case):
         if len(sp) != len(S) or not (np.max(np.abs(sp[:len(sv)] - np.sort(-2 * np.log(sv)))) <= 1e-6):
             ctx.violation(name + ':entanglement_spectrum', 'bond %d' % b, case)
             return
+    # charge-resolved spectrum: the Schmidt values of every charge sector of the left part (labels up to the gauge of the bond leg)
+    chinfo = psi.sites[0].leg.chinfo
+    mod = [int(m) for m in chinfo.mod]
+    if mod and psi.bc == 'finite' and all(np.asarray(S_).ndim == 1 for S_ in psi._S):
+        from vf import gen
+        spec_q = psi.entanglement_spectrum(by_charge=True)
+        dims = [s_.dim for s_ in psi.sites]
+        T = unit.reshape(dims)
+        for b in range(1, L):
+            left_q = np.zeros((1, len(mod)), dtype=np.int64)
+            for s_ in psi.sites[:b]:
+                q_ = s_.leg.qconj * gen.leg_qflat(s_.leg)
+                left_q = (left_q[:, None, :] + q_[None, :, :]).reshape(-1, len(mod))
+            left_q = gen.mod_valid(left_q, mod)
+            M = T.reshape(int(np.prod(dims[:b])), -1)
+            groups = {}
+            for q_ in set(map(tuple, left_q.tolist())):
+                rows = np.all(left_q == np.array(q_), axis=1)
+                sv_q = np.linalg.svd(M[rows], compute_uv=False)
+                sv_q = sv_q[sv_q > 1e-10]
+                if len(sv_q):
+                    groups[q_] = np.sort(-2 * np.log(sv_q))
+            got = []
+            for q_, sub in spec_q[b - 1]:
+                sub = np.asarray(sub)
+                sub = sub[sub < -2 * np.log(1e-10)]
+                if len(sub):
+                    got.append(np.sort(sub))
+            ctx.count('schmidt.by_charge_checked')
+            want = sorted(groups.values(), key=lambda a: (len(a), tuple(np.round(a, 6))))
+            got = sorted(got, key=lambda a: (len(a), tuple(np.round(a, 6))))
+            if len(want) != len(got) or any(len(a) != len(c) or not (np.max(np.abs(a - c)) <= 1e-6) for a, c in zip(want, got)):
+                ctx.violation(name + ':entanglement_spectrum(by_charge):sectors-differ-from-dense', 'bond %d: %r vs dense %r' %
+                              (b, [np.round(a, 4).tolist() for a in got][:4], [np.round(a, 4).tolist() for a in want][:4]), case)
+                return
 
 
 def expected_total_charge(sites, qtotal):
@@ -753,6 +788,15 @@ def build_infinite(ctx, rng, i):
                 return _orig_violation(key + ':tensors-of-different-dtypes', what, case_, **kw)
 
             ctx.violation = _tagged
+        elif rng.random() < 0.25:
+            # a real state whose tensors are all replaced by complex ones through set_B (bookkeeping of MPS.dtype)
+            Bs = [np.real(B) + 1j * rng.standard_normal(B.shape) for B in Bs]
+            psi_c = MPS.from_Bflat(sites, Bs, bc='infinite', form=None)
+            psi = MPS.from_Bflat(sites, [np.real(B) for B in Bs], bc='infinite', form=None)
+            for k_ in range(L):
+                psi.set_B(k_, psi_c.get_B(k_, form=None), form=None)
+            case['all_tensors_replaced_by_complex_ones'] = True
+            ctx.count('infinite.real_state_made_complex_by_set_B')
         if which == 1:
             psi.canonical_form_infinite1()
         else:
